@@ -1,6 +1,6 @@
 (* Framing theorems for the connection-level model (H1/ConnH1.v). *)
 From Coq Require Import List NArith ZArith Bool Arith Lia.
-From LV Require Import Base.Bytes Gen.GenBurl Gen.GenH1 Url.UrlModel H1.H1Model Resp.RespModel Resp.RespProofs H1.ConnH1.
+From LV Require Import Base.Bytes Gen.GenBurl Gen.GenH1 Gen.GenSafe Url.UrlModel H1.H1Model Resp.RespModel Resp.RespProofs H1.ConnH1.
 Import ListNotations.
 Local Open Scope N_scope.
 
@@ -85,8 +85,8 @@ Proof.
   rewrite (hexacc_digs 16 n Hsmall Hmax).
   assert (Hds : is_nil_b (digs 16 n) = false) by (pose proof (digs_nonempty 15 n); destruct (digs 16 n); [contradiction|reflexivity]). rewrite Hds.
   rewrite ends_crlf_snoc. cbn [negb]. change (list_eqb [13; 10] [13; 10]) with true. cbn [negb andb].
-  assert (Hlen : (1024 <=? N.of_nat (length (map hexlc (digs 16 n) ++ [13; 10]))) = false).
-  { apply N.leb_gt. rewrite app_length, map_length. pose proof (digs_length 16 n). cbn [length]. lia. }
+  assert (Hlen : (CHUNK_LINE_MAX <=? N.of_nat (length (map hexlc (digs 16 n) ++ [13; 10]))) = false).
+  { apply N.leb_gt. change CHUNK_LINE_MAX with 1024. rewrite app_length, map_length. pose proof (digs_length 16 n). cbn [length]. lia. }
   rewrite Hlen.
   assert (Hn0 : (n =? 0) = false) by (apply N.eqb_neq; subst n b; cbn [length]; lia). rewrite Hn0.
   assert (Hav : (N.of_nat (length (b ++ 13 :: 10 :: more)) <=? n) = false) by (apply N.leb_gt; rewrite app_length; subst n; cbn [length]; lia). rewrite Hav.
@@ -104,7 +104,7 @@ Proof.
     cbn [line_nonul]. vm_compute (LF =? 0). vm_compute (LF =? 10). cbn [rev app].
     change (span_hex [48; CR; LF]) with ([0], [CR; LF]). cbn [hexacc]. vm_compute (CHUNK_MAX <? 0). cbn [is_nil_b].
     vm_compute (ends_crlf [48; CR; LF]). cbn [negb]. vm_compute (list_eqb [CR; LF] [13; 10]). cbn [negb andb].
-    vm_compute (1024 <=? N.of_nat (length [48; CR; LF])). vm_compute (0 * 16 + 0 =? 0). vm_compute (prefixb CRLF (CR :: LF :: rest)). cbn [skipn].
+    vm_compute (CHUNK_LINE_MAX <=? N.of_nat (length [48; CR; LF])). vm_compute (0 * 16 + 0 =? 0). vm_compute (prefixb CRLF (CR :: LF :: rest)). cbn [skipn].
     rewrite app_nil_r. reflexivity.
   - destruct f as [|f]; [cbn in Hf; lia|]. inversion Hs as [|? ? Hb Hbs]; subst. cbn [map concat]. rewrite <- app_assoc.
     rewrite dechunk_req_one by exact Hb. rewrite IH; [|exact Hbs|cbn in Hf; lia]. rewrite rev_app_distr, rev_involutive, <- app_assoc. reflexivity.
@@ -177,7 +177,24 @@ Proof.
       destruct (0 <? o_rlen o)%Z.
       * destruct (N.of_nat (length (skipn hlen s)) <? Z.to_N (o_rlen o)); [apply Single|apply Cons, IH].
       * destruct (dechunk_req (S (length (skipn hlen s))) maxf (skipn hlen s) []) as [bd r k c|st|]; try apply Single. apply Cons, IH.
-  - destruct (maxf <? N.of_nat (length s)); [apply Single|]. destruct (negb first && list_eqb s [13]); [apply Single|]. destruct (c0 <? 32); apply Single.
+  - destruct (maxf <? N.of_nat (length s)); [apply Single|]. destruct (lone_cr_after_request_waits && negb first && list_eqb s [13]); [apply Single|]. destruct (c0 <? FIRST_BYTE_MIN); apply Single.
+Qed.
+
+(* ---------------------------------------------------------------- a trailer section beyond the field-size limit ends the connection,
+   whether its end is in sight or not (both decisions are read from the source: Gen/GenH1.v) *)
+Theorem overlong_trailers_end_the_connection maxf line rest acc body rest' ka cut :
+  line_nonul (line ++ rest) [] = Some (line, rest) -> span_hex line = ([0], [13; 10]) ->
+  prefixb CRLF rest = false ->
+  maxf < N.of_nat (length line + length rest) ->
+  (forall k, find_crlfcrlf (CRLF ++ rest) O = Some k -> maxf < N.of_nat (length line + k - 2)) ->
+  dechunk_req 1 maxf (line ++ rest) acc = ChDone body rest' ka cut -> ka = false.
+Proof.
+  intros Hl Hs Hp Hlen Hfar. cbn [dechunk_req]. rewrite Hl, Hs. cbn [hexacc]. vm_compute (CHUNK_MAX <? 0). cbn [is_nil_b].
+  destruct (negb (ends_crlf line)); [discriminate|]. change (list_eqb [13; 10] [13; 10]) with true. cbn [negb andb].
+  destruct (CHUNK_LINE_MAX <=? N.of_nat (length line)); [discriminate|]. vm_compute (0 * 16 + 0 =? 0). rewrite Hp.
+  destruct (find_crlfcrlf (CRLF ++ rest) 0) as [k|] eqn:Ef.
+  - specialize (Hfar k eq_refl). apply N.ltb_lt in Hfar. rewrite Hfar. intro H. inversion H. reflexivity.
+  - assert (E : (maxf <=? N.of_nat (length line + length rest)) = true) by (apply N.leb_le; lia). rewrite E. intro H. inversion H. reflexivity.
 Qed.
 
 (* ---------------------------------------------------------------- the classes of chunk framing the reader refuses *)
